@@ -163,8 +163,20 @@ void cmb_objectqueue_recording_start(struct cmb_objectqueue *oqp)
     cmb_assert_release(oqp != NULL);
     cmb_assert_release(((struct cmi_resourcebase *)oqp)->cookie == CMI_INITIALIZED);
 
+    /*
+     * Resuming after a pause? The pause itself is not part of the history:
+     * the sample that closed the previous recording gets no duration.
+     */
+    struct cmb_timeseries *ts = &(oqp->history);
+    const bool resuming = !oqp->is_recording && (cmb_timeseries_count(ts) > 0u);
+
     oqp->is_recording = true;
     record_sample(oqp);
+
+    const uint64_t n = cmb_timeseries_count(ts);
+    if (resuming && (n >= 2u)) {
+        ts->wa[n - 2u] = 0.0;
+    }
 }
 
 void cmb_objectqueue_recording_stop(struct cmb_objectqueue *oqp)
